@@ -7,8 +7,8 @@
 (*   ref[c]   = clusterInfo.refCount                                       *)
 (*   active   = keys of xdsResolver.activeClusters                         *)
 (*   inConfig = clusters in the last service config pushed to the channel  *)
-(*   rpc[i]   = "idle" | <<"sel", c>> (SelectConfig returned cluster c,    *)
-(*              OnCommitted not yet run) | "committed"                     *)
+(*   rpc[i]   = 0 idle | c (SelectConfig returned cluster c, OnCommitted   *)
+(*              not yet run) | Done (committed)                            *)
 (*   dirty    = some reference count dropped to zero and the resulting     *)
 (*              service config update (unsubscribe -> dependency manager   *)
 (*              -> Update, or sendNewServiceConfig) has not run yet        *)
@@ -16,19 +16,21 @@
 (* prune + push, then the old selector is stopped (-1 on the old route).   *)
 (***************************************************************************)
 EXTENDS Integers, FiniteSets, TLC
-CONSTANTS Clusters, RPCs, Mutant
+CONSTANTS Clusters, RPCs, Mutant, Eager   \* Eager: the follow-up update runs inside the step that caused it
 VARIABLES route, ref, active, inConfig, rpc, dirty, ncommit
 cvars == <<route, ref, active, inConfig, rpc, dirty, ncommit>>
+Done == 100
 CInit == /\ route = {} /\ ref = [c \in Clusters |-> 0] /\ active = {} /\ inConfig = {}
-         /\ rpc = [i \in RPCs |-> "idle"] /\ dirty = FALSE /\ ncommit = [i \in RPCs |-> 0]
+         /\ rpc = [i \in RPCs |-> 0] /\ dirty = FALSE /\ ncommit = [i \in RPCs |-> 0]
 Prune(a, rf) == {c \in a : rf[c] > 0}
 RouteUpdate(S) ==
   /\ S # {} /\ S \subseteq Clusters
   /\ LET r1 == [c \in Clusters |-> ref[c] + (IF c \in S THEN 1 ELSE 0)]
          a1 == Prune(active \cup S, r1)
          r2 == [c \in Clusters |-> r1[c] - (IF c \in route THEN 1 ELSE 0)] IN
-     /\ active' = a1 /\ inConfig' = a1 /\ ref' = r2 /\ route' = S
-     /\ dirty' = (\E c \in a1 : r2[c] = 0)
+     /\ ref' = r2 /\ route' = S
+     /\ IF Eager THEN active' = Prune(a1, r2) /\ inConfig' = Prune(a1, r2) /\ dirty' = FALSE
+        ELSE active' = a1 /\ inConfig' = a1 /\ dirty' = (\E c \in a1 : r2[c] = 0)
   /\ UNCHANGED <<rpc, ncommit>>
 \* the follow-up update after a count dropped to zero: prune + push
 Reconcile ==
@@ -36,21 +38,23 @@ Reconcile ==
   /\ active' = Prune(active, ref) /\ inConfig' = Prune(active, ref)
   /\ UNCHANGED <<route, ref, rpc, ncommit>>
 Select(i, c) ==
-  /\ rpc[i] = "idle" /\ c \in route
-  /\ rpc' = [rpc EXCEPT ![i] = <<"sel", c>>]
+  /\ rpc[i] = 0 /\ c \in route
+  /\ rpc' = [rpc EXCEPT ![i] = c]
   /\ ref' = IF Mutant = 1 THEN ref ELSE [ref EXCEPT ![c] = @ + 1]
   /\ UNCHANGED <<route, active, inConfig, dirty, ncommit>>
 \* OnCommitted (first call)
 Commit(i) ==
-  /\ rpc[i] \notin {"idle", "committed"}
-  /\ LET c == rpc[i][2] IN
-     /\ ref' = IF Mutant = 1 THEN ref ELSE [ref EXCEPT ![c] = @ - 1]
-     /\ dirty' = (dirty \/ (Mutant # 1 /\ ref[c] = 1))
-  /\ rpc' = [rpc EXCEPT ![i] = "committed"] /\ ncommit' = [ncommit EXCEPT ![i] = @ + 1]
-  /\ UNCHANGED <<route, active, inConfig>>
+  /\ rpc[i] \in Clusters
+  /\ LET c == rpc[i]
+         r1 == IF Mutant = 1 THEN ref ELSE [ref EXCEPT ![c] = @ - 1] IN
+     /\ ref' = r1
+     /\ IF Eager THEN active' = Prune(active, r1) /\ inConfig' = Prune(active, r1) /\ dirty' = FALSE
+        ELSE dirty' = (dirty \/ (Mutant # 1 /\ ref[c] = 1)) /\ UNCHANGED <<active, inConfig>>
+  /\ rpc' = [rpc EXCEPT ![i] = Done] /\ ncommit' = [ncommit EXCEPT ![i] = @ + 1]
+  /\ UNCHANGED route
 \* OnCommitted called again: sync.OnceFunc makes it a no-op (Mutant 2: it decrements again)
 CommitAgain(i) ==
-  /\ rpc[i] = "committed"
+  /\ rpc[i] = Done
   /\ IF Mutant = 2 /\ ncommit[i] = 1
        THEN \E c \in Clusters : ref[c] > 0 /\ ref' = [ref EXCEPT ![c] = @ - 1] /\ dirty' = (dirty \/ ref[c] = 1)
                                 /\ ncommit' = [ncommit EXCEPT ![i] = 2]
@@ -60,11 +64,11 @@ CNext == \/ \E S \in SUBSET Clusters : RouteUpdate(S)
          \/ Reconcile
          \/ \E i \in RPCs : Commit(i) \/ CommitAgain(i) \/ \E c \in Clusters : Select(i, c)
 
-Selected == {rpc[i][2] : i \in {j \in RPCs : rpc[j] \notin {"idle", "committed"}}}
+Selected == {rpc[i] : i \in {j \in RPCs : rpc[j] \in Clusters}}
 \* ---- Level A
 I_SelectedInConfig == Selected \subseteq inConfig
 I_CommitOnce == \A i \in RPCs : ncommit[i] <= 1
 I_Quiescent == ~dirty => inConfig = route \cup Selected
 \* ---- Level I
-I_RefCount == \A c \in Clusters : ref[c] = (IF c \in route THEN 1 ELSE 0) + Cardinality({i \in RPCs : rpc[i] = <<"sel", c>>})
+I_RefCount == \A c \in Clusters : ref[c] = (IF c \in route THEN 1 ELSE 0) + Cardinality({i \in RPCs : rpc[i] = c})
 ====
